@@ -388,10 +388,27 @@ func RunC13(r *core.Run) {
 		var buf []byte
 		var starts []int
 		total := 0
+		badAt := -1
+		if rr.Intn(3) == 0 {
+			badAt = rr.Intn(k - 1) // one of the calls (not the last) runs into a malformed element
+		}
 		for i := 0; i < k; i++ {
 			o := gen.PLOpts{Flags: eff, Term: gen.TermChar, MaxItems: 4}
 			if i == k-1 {
 				o.Term = gen.TermEOH
+			}
+			if i == badAt {
+				// a call that ends in an error verdict (after 0..2 good elements); the caller skips
+				// it and goes on adding to the same list with the next call
+				starts = append(starts, len(buf))
+				sep := ";"
+				if hdrs {
+					sep = "&"
+				}
+				buf = append(buf, []string{"\x01bad", "a=1" + sep + "b\x02", "x" + sep + "y=2" + sep + "\"unterminated\x00", "=", "a=\x7f"}[rr.Intn(5)]...)
+				buf = append(buf, ',')
+				w.Inc("lists_with_an_error_call_in_between")
+				continue
 			}
 			pl := gen.ParamList(rr, o)
 			starts = append(starts, len(buf))
@@ -425,12 +442,12 @@ func RunC13(r *core.Run) {
 			ob.View(&v, view.MsgOpt{Opt: view.Opt{CapIndep: true, ParamLimit: 0}})
 			return append(res, v.N...), ""
 		}
-		ref, pan := run(total + 2)
+		ref, pan := run(total + 5)
 		w.Eval(1)
 		if pan != "" {
 			return
 		}
-		for pc := 0; pc <= total; pc++ {
+		for pc := 0; pc <= total+2; pc++ {
 			got, pan := run(pc)
 			w.Eval(1)
 			same := pan == "" && len(got) == len(ref)
